@@ -165,4 +165,59 @@ TEXT = {
         "level_note": COMMON_NOTE + "The all-nodes/MPHF clause rests on C01 and is executed only.",
         "technique": "Lean 4 proof (simulation of the iterator state machine by a list cursor, induction over call sequences) + differential correspondence",
     },
+    "C04": {
+        "level_text": "The full statement is written in Lean (C04_sharded_eq_direct_full) but NOT proved. Proved links of its chain: the pieces of every read "
+                      "tile it exactly with true flanks (C08), per-shard compression yields the connected components of the shard's good links (C02, "
+                      "id level), re-compression merges every node at most once and never a censored one (C09). Missing: bucket purity, the "
+                      "characterisation of re-compression, closure of components. The property itself is decided by running both real pipelines "
+                      "on the same read sets (6-10 (K,P) pairs, default and random permutations, stranded and unstranded, thresholds 1-3, with "
+                      "and without sharded pruning) and comparing canonical partitions, payload totals and adjacencies; both are also diffed with "
+                      "the composed Lean model (per-shard hash orders passed as data).",
+        "design_ref": "DESIGN.md section 6, C04",
+        "level_note": COMMON_NOTE + "Partial (_partial): the end-to-end theorem is missing; what is machine-checked are three links of the chain.",
+        "technique": "Lean 4 proof of chain links + differential correspondence of composed pipelines with executable predicate on both real pipelines",
+    },
+    "C06": {
+        "level_text": "Proved (string level): the key chosen by min_rc_flip is the lexicographic minimum of a k-mer and its reverse complement, is the same "
+                      "for both, their flip flags are opposite unless the k-mer is its own reverse complement, and stranded mode never "
+                      "canonicalises. The invariance of table and graphs under reverse-complementing any subset of reads, and stranded "
+                      "separation (table = forward k-mers with their counts, stranded graphs = components of forward links, the three pipelines "
+                      "agree), are evaluated on the crate's outputs for random masks, even and odd K.",
+        "design_ref": "DESIGN.md section 6, C06",
+        "level_note": COMMON_NOTE + "Partial: table/graph-level invariance by execution.",
+        "technique": "Lean 4 proof (order lemmas on canonical forms) + execution of all pipeline variants on reverse-complemented read sets with executable predicates",
+    },
+    "C09": {
+        "level_text": "Proved for the model of CompressFromGraph, for every graph and censor set: each walk only steps onto available nodes, removes them and "
+                      "never repeats one (extendNode_ok, by functional induction on the well-founded walk); a built node merges distinct available "
+                      "nodes including its seed (buildNode_ok); across the whole loop no input node is merged twice and no censored node is ever "
+                      "merged (C09_censored_excluded). The characterisation of the result as the maximal unbranched paths of the surviving "
+                      "adjacencies, no dangling extensions and payload folding are executable predicates evaluated on the crate's result "
+                      "(partition against the reconstructed k-mer table, components by label propagation).",
+        "design_ref": "DESIGN.md section 6, C09",
+        "level_note": COMMON_NOTE + "Partial: C09_char and corollaries by execution.",
+        "technique": "Lean 4 proof (invariants of the availability-consuming walk) + differential correspondence with executable predicates",
+    },
+    "C19": {
+        "level_text": "Proved: on a graph with distinct node ends there is exactly one lookup function meeting the BoomHashMap contract (exact get among the "
+                      "inserted keys), so every link query - and everything computed from link queries - is the same for any builder that meets "
+                      "the contract, whatever its schedule or internal layout (C19_index_unique, C19_queries_determined); a k-mer is found exactly "
+                      "when some node starts/ends with it (C19_search_exact). NOT provable here: that boomphf's parallel builder meets the contract "
+                      "under every schedule - the schedule lives in boomphf/rayon. That part is explored: finish() in pools of 1-16 threads, repeated "
+                      "runs, graphs up to 10^5 (thorough 3*10^5) nodes, compared with finish_serial() and with the model.",
+        "design_ref": "DESIGN.md section 6, C19",
+        "level_note": COMMON_NOTE + "Partial by nature: schedules explored, not proved.",
+        "technique": "Lean 4 proof (uniqueness of an exact index => queries determined by the graph) + schedule exploration by execution",
+    },
+    "C20": {
+        "level_text": "Proved for the model of the GFA export: every L record is an edge reported from the side it names (soundness) and, on graphs with "
+                      "symmetric edge lists, every adjacency - between nodes, circular self-link, hairpin self-link on either side - is written at "
+                      "least once (completeness; this is the clause that D6 violated). Multiplicity, JSON well-formedness and serde round trips are "
+                      "decided by execution: records re-read into port pairs and counted, the JSON parsed with serde_json and its counts compared "
+                      "with the graph, round trips of k-mers / strings / Lmers / extension sets / graphs compared by equality and queries. Two "
+                      "defects (D5 JSON trailing comma, D6 missing right hairpin) were found by this check and repaired in /repo.",
+        "design_ref": "DESIGN.md section 6, C20",
+        "level_note": COMMON_NOTE + "Partial: persistence tested, not proved (derived serde code is outside the model).",
+        "technique": "Lean 4 proof (GFA link soundness/completeness by case analysis) + verbatim text correspondence + serde round-trip tests",
+    },
 }
